@@ -7,14 +7,17 @@ from .refeval import UNDEF
 
 # ---------------------------------------------------------------- schema
 SCHEMA = {
-    "Person": {"scalars": ["name", "age"], "one": {}, "many": {"blogs": ("Blog", "owner"), "posts": ("Post", "author")}},
+    "City": {"scalars": ["name"], "one": {}, "many": {"people": ("Person", "city")}},
+    # Person.city is a NOT NULL foreign key: a non-nullable hop behind the nullable hops Post.author / Blog.owner
+    "Person": {"scalars": ["name", "age"], "one": {"city": "City"}, "many": {"blogs": ("Blog", "owner"), "posts": ("Post", "author")}},
     "Blog": {"scalars": ["title"], "one": {"owner": "Person"}, "many": {"posts": ("Post", "blog")}},
-    "Post": {"scalars": ["title", "score"], "one": {"blog": "Blog", "author": "Person"},
+    # Post.owner -> City shares its attribute NAME with Blog.owner -> Person (different model, different target)
+    "Post": {"scalars": ["title", "score"], "one": {"blog": "Blog", "author": "Person", "owner": "City"},
              "many": {"comments": ("Comment", "post"), "tags": ("Tag", "m2m")}},
     "Comment": {"scalars": ["text", "score"], "one": {"post": "Post"}, "many": {}},
     "Tag": {"scalars": ["label", "weight"], "one": {}, "many": {"posts": ("Post", "m2m")}},
 }
-TABLES = ["Person", "Blog", "Tag", "Post", "Comment"]
+TABLES = ["City", "Person", "Blog", "Tag", "Post", "Comment"]
 
 
 class DB:
@@ -26,6 +29,20 @@ class DB:
         self._next = {t: 1 for t in TABLES}
 
     def add(self, table, **kw):
+        if table == "Person" and "city_id" not in kw:
+            # every person lives somewhere (NOT NULL): two cities, assigned alternately
+            while len(self.rows["City"]) < 2:
+                self.add("City", name="c%d" % (len(self.rows["City"]) + 1))
+            kw["city_id"] = self.rows["City"][len(self.rows["Person"]) % 2]["id"]
+        if table == "Post" and "owner_id" not in kw:
+            # Post.owner -> City is nullable: every third post has none, the others alternate between the two cities
+            k = len(self.rows["Post"])
+            if k % 3 == 0:
+                kw["owner_id"] = None
+            else:
+                while len(self.rows["City"]) < 2:
+                    self.add("City", name="c%d" % (len(self.rows["City"]) + 1))
+                kw["owner_id"] = self.rows["City"][k % 2]["id"]
         kw.setdefault("id", self._next[table])
         self._next[table] = max(self._next[table], kw["id"]) + 1
         self.rows[table].append(kw)
@@ -315,7 +332,9 @@ def scalar_atoms(prefix, table):
     def f(name):
         return P(*(prefix + (name,))) if prefix else T.I(name)
     out = []
-    if table == "Person":
+    if table == "City":
+        out += [T.binop("Eq", f("name"), T.Str("c1")), T.binop("NotEq", f("name"), T.Str("c2")), T.binop("Eq", f("name"), T.NULL)]
+    elif table == "Person":
         out += [T.binop("Eq", f("name"), T.Str("p1")), T.binop("Gt", f("age"), T.Int(0)), T.binop("Eq", f("age"), T.NULL),
                 T.binop("NotEq", f("age"), T.NULL), T.binop("In", f("name"), T.lst(T.Str("p2"), T.Str("zz"))),
                 T.call("startswith", f("name"), T.Str("p")), T.binop("Lt", T.Int(1), f("age"))]
@@ -347,6 +366,8 @@ def nonnull_body_atoms(var, table):
         return [T.binop("Eq", f("weight"), T.Int(2)), T.binop("Eq", f("label"), T.Str("t1"))]
     if table == "Person":
         return [T.binop("Eq", f("name"), T.Str("p1"))]
+    if table == "City":
+        return [T.binop("Eq", f("name"), T.Str("c1"))]
     return []
 
 
